@@ -539,7 +539,7 @@ pub fn expand(tmp: &Path, case: &Case) -> Result<Vec<Faulted>, Failure> {
     }
     // hook-free cross-check on plain (rename-based) patterns: obstacle at the destination of the final move / first shift
     if let RollSpec::Fixed { count, pattern, .. } = &case.roller {
-        if *count == 1 && (pattern.ends_with(".gz") || pattern.ends_with(".zst")) && Path::new("/dev/full").exists() {
+        if *count == 1 && (pattern.ends_with(".gz") || pattern.ends_with(".zst")) && full_device_ok() {
             for r in 0..rep.rotations.min(3) {
                 out.push(Faulted { case: case.clone(), fault: Fault::FullDevice { r } });
             }
